@@ -704,7 +704,7 @@ func init() {
 					if !c.Mine(idx) {
 						continue
 					}
-					if k&0x3FF == 0 && c.Expired() {
+					if c.Due(0x3FF) {
 						c.Note(fmt.Sprintf("deadline hit at programs of %d nodes", m))
 						return
 					}
